@@ -3,6 +3,7 @@ from __future__ import annotations
 
 import ast
 import inspect
+import re
 import itertools
 import sys
 import types
@@ -15,13 +16,13 @@ LEVEL = 'exploration'
 RULE = ('part X: every hierarchy of n<=N classes in definition order where class i takes any ordered subset of '
         'distinct earlier classes as bases (n<=5 exhaustive = 10 573 hierarchies, n=6 sampled), members '
         'and docstrings placed pseudo-randomly; part R: random hierarchies of 6-14 classes over 2-4 modules with '
-        'cross-module bases, Generic[T]/Base[T] bases, Exception roots and base names rebound by a later import. The same source is executed statement by '
+        'cross-module bases, Generic[T]/Base[T] bases, Exception roots and base names rebound by a later import; part G: G-PROJ projects (re-exports that move classes, cycles, duplicates; three processing orders) and real packages, where the reference is type() over dummy classes mirroring the base graph pydoctor resolved. The same source is executed statement by '
         'statement by CPython (TypeError => inconsistent) and analysed by pydoctor. A hierarchy is non-trivial if some '
         'class has >=2 bases.')
 ASSUME = ['CPython 3.12 type() is the reference for linearisation; inspect.getdoc for inherited docstrings',
           'classes whose creation CPython refuses for a reason propagated from an earlier refused class are not judged']
-DECIDING = {'classes_judged': 3000, 'inconsistent_judged': 50, 'find_compared': 3000, 'doc_compared': 1000,
-            'tables_compared': 100, 'overrides_compared': 100}
+DECIDING = {'project_classes_judged': 2000, 'classes_judged': 3000, 'inconsistent_judged': 50, 'find_compared': 3000, 'doc_compared': 1000,
+            'tables_compared': 100, 'overrides_compared': 100, 'rendered_doc_compared': 1000, 'reexported_classes': 100}
 CPU_S = 900
 
 MEMBERS = ['m0', 'm1', 'v0']
@@ -65,6 +66,17 @@ def cases(tier: str, seed: int) -> List[Dict[str, Any]]:
     nrand = 300 if tier == 'quick' else 6000
     for k in range(0, nrand, 20):
         out.append({'part': 'R', 'seed': seed, 'k': k, 'n': 20})
+    for k in range(0, nrand // 2, 20):
+        out.append({'part': 'RE', 'seed': seed, 'k': k, 'n': 20})
+    # part G: whole projects (re-exports that move classes, import cycles, duplicates, several processing orders) and real packages;
+    # the reference linearises the hierarchy pydoctor itself resolved, with CPython's type()
+    ng = 200 if tier == 'quick' else 4000
+    for k in range(0, ng, 10):
+        out.append({'part': 'G', 'seed': seed, 'k': k, 'n': 10})
+    from vf.gen import corpus
+    r2 = core.rng(seed, 'C05', 'corpus')
+    for pth in (corpus.pick(r2, 4, max_bytes=400_000, min_files=3) if tier == 'quick' else [p for p, n_, size in corpus.roots() if size < 2_000_000]):
+        out.append({'part': 'GP', 'path': pth})
     return out
 
 
@@ -190,6 +202,27 @@ def _gen_random(seed: int, k: int) -> Dict[str, str]:
     return out
 
 
+def _gen_reexport(seed: int, k: int) -> Tuple[Dict[str, str], Dict[str, str]]:
+    """a random hierarchy whose classes a further module re-exports through __all__, in an order of its own: the classes are
+    moved, and re-registered, in that order (a subclass may now precede its bases in the system)"""
+    mods = _gen_random(seed, k)
+    r = core.rng('C05', 'RE', seed, k)
+    # distinct line ranges per module: a moved class is reported under its new module with its old line number
+    mods = {name: '\n' * (300 * i) + src for i, (name, src) in enumerate(mods.items())}
+    found = []
+    for name, src in mods.items():
+        for st in ast.parse(src).body:
+            if isinstance(st, ast.ClassDef):
+                found.append((name, st.name))
+    r.shuffle(found)
+    picked = found[:max(1, int(len(found) * r.choice([.4, .7, 1.])))]
+    pub = f'r{seed}_{k}_pub'
+    src = ''.join(f'from {m} import {c}\n' for m, c in picked)
+    src += f'__all__ = {[c for _, c in picked]!r}\n'
+    mods[pub] = src
+    return mods, {f'{m}.{c}': f'{pub}.{c}' for m, c in picked}
+
+
 # ------------------------------------------------------------------------------------------------
 # CPython side
 
@@ -227,7 +260,7 @@ def _cpython(mods: Dict[str, str]) -> Tuple[Dict[str, Any], Dict[str, str]]:
 
 # ------------------------------------------------------------------------------------------------
 
-def _judge(res: core.Res, mods: Dict[str, str], label: str) -> None:
+def _judge(res: core.Res, mods: Dict[str, str], label: str, final: Optional[Dict[str, str]] = None) -> None:
     from pydoctor import model
     from pydoctor.templatewriter import util
     from pydoctor.templatewriter import pages
@@ -235,18 +268,27 @@ def _judge(res: core.Res, mods: Dict[str, str], label: str) -> None:
     from vf.mon import msgs
     classes, failed = _cpython(mods)
     try:
-        _judge2(res, mods, label, classes, failed)
+        _judge2(res, mods, label, classes, failed, final or {})
     finally:
         for m in mods:
             sys.modules.pop(m, None)
 
 
-def _judge2(res: core.Res, mods: Dict[str, str], label: str, classes: Dict[str, Any], failed: Dict[str, str]) -> None:
+def _judge2(res: core.Res, mods: Dict[str, str], label: str, classes: Dict[str, Any], failed: Dict[str, str], final: Dict[str, str]) -> None:
+    # final: run-time name -> documented name, for classes a re-exporting module moves
+    inv = {v: k for k, v in final.items()}
+
+    def F(full: str) -> str:
+        return final.get(full, full)
+
+    def Q(c: Any) -> str:
+        return f'{c.__module__}.{c.__qualname__}'
     from pydoctor import model
     from pydoctor.templatewriter import util
     from pydoctor.templatewriter import pages
     from pydoctor import epydoc2stan
     from vf.mon import msgs
+    from pydoctor.stanutils import flatten
     system = model.System()
     system.options.verbosity = -10
     b = system.systemBuilder(system)
@@ -276,19 +318,34 @@ def _judge2(res: core.Res, mods: Dict[str, str], label: str, classes: Dict[str, 
         for full in lineno:
             if full in tainted:
                 continue
-            o = system.allobjects.get(full)
+            o = system.allobjects.get(F(full))
             names = set()
             if isinstance(o, model.Class):
-                names |= {b.fullName() for b in o.baseobjects if b is not None}
+                names |= {inv.get(b.fullName(), b.fullName()) for b in o.baseobjects if b is not None}
             c = classes.get(full)
             if c is not None:
                 names |= {f'{b.__module__}.{b.__qualname__}' for b in c.__mro__[1:]}
             if names & tainted:
                 tainted.add(full)
                 changed = True
+    # what a page shows for each method, produced base classes first (the order of the class statements), as pages of a whole
+    # project are: the parsed docstring of a member is computed once and kept
+    rendered: Dict[Tuple[str, str], Optional[List[str]]] = {}
+    for full in lineno:
+        o = system.allobjects.get(F(full))
+        if not isinstance(o, model.Class):
+            continue
+        for m in MEMBERS:
+            own = o.contents.get(m)
+            if m.startswith('m') and isinstance(own, model.Function):
+                try:
+                    rendered[(full, m)] = re.findall(r'doc of (\w+\.\w+)', flatten(epydoc2stan.format_docstring(own)))
+                except Exception:  # noqa: BLE001 -- C08's business
+                    rendered[(full, m)] = None
     for full in sorted(lineno):
         modname = full.rsplit('.', 1)[0]
-        obj = system.allobjects.get(full)
+        obj = system.allobjects.get(F(full))
+        modname = F(full).rsplit('.', 1)[0]
         if not isinstance(obj, model.Class):
             res.v('C05:class-missing', f'{full} is not documented as a class ({label})', **w)
             continue
@@ -310,7 +367,7 @@ def _judge2(res: core.Res, mods: Dict[str, str], label: str, classes: Dict[str, 
         cls = classes[full]
         if reported:
             res.v('C05:consistent-but-reported', f'CPython accepts {full} but pydoctor reports {reported[0]!r} ({label})', cls=full, **w)
-        exp = [f'{c.__module__}.{c.__qualname__}' for c in cls.__mro__ if f'{c.__module__}.{c.__qualname__}' in gen_names]
+        exp = [F(Q(c)) for c in cls.__mro__ if Q(c) in gen_names]
         got = [c.fullName() for c in obj.mro()]
         if got != exp:
             res.v('C05:mro-differs', f'{full}: pydoctor mro {got}, CPython {exp} ({label})', cls=full, **w)
@@ -320,7 +377,7 @@ def _judge2(res: core.Res, mods: Dict[str, str], label: str, classes: Dict[str, 
             definer = next((c for c in gen_mro if m in c.__dict__), None)
             found = obj.find(m)
             res.c('find_compared')
-            fexp = f'{definer.__module__}.{definer.__qualname__}.{m}' if definer else None
+            fexp = f'{F(Q(definer))}.{m}' if definer else None
             fgot = found.fullName() if found is not None else None
             if fexp != fgot:
                 res.v('C05:find-differs', f'{full}.find({m!r}) = {fgot}, attribute lookup finds {fexp} ({label})', cls=full, **w)
@@ -341,6 +398,11 @@ def _judge2(res: core.Res, mods: Dict[str, str], label: str, classes: Dict[str, 
                     dgot, _src = model.get_docstring(own)
                     if (dexp or None) != (dgot or None):
                         res.v('C05:inherited-doc-differs', f'{full}.{m}: docstring {dgot!r}, inspect.getdoc gives {dexp!r} ({label})', cls=full, **w)
+                    shown = rendered.get((full, m))
+                    if shown is not None:
+                        res.c('rendered_doc_compared')
+                        if shown != re.findall(r'doc of (\w+\.\w+)', dexp or ''):
+                            res.v('C05:rendered-inherited-doc-differs', f'{full}.{m}: the page shows the docstring of {shown}, attribute lookup along the MRO yields {dexp!r} ({label})', cls=full, **w)
                     # overrides note
                     res.c('overrides_compared')
                     sup = next((c for c in gen_mro[1:] if m in c.__dict__), None)
@@ -356,7 +418,7 @@ def _judge2(res: core.Res, mods: Dict[str, str], label: str, classes: Dict[str, 
                         first = next(iter(it), None)
                     finally:
                         epydoc2stan.taglink = orig_taglink  # type: ignore[assignment]
-                    oexp = f'{sup.__module__}.{sup.__qualname__}.{m}' if sup else None
+                    oexp = f'{F(Q(sup))}.{m}' if sup else None
                     is_over = first is not None and bool(getattr(first, 'children', None)) and first.children[0] == 'overrides '
                     ogot = targets[0] if (is_over and targets) else None
                     if oexp != ogot and not (oexp is None and ogot is None):
@@ -369,7 +431,7 @@ def _judge2(res: core.Res, mods: Dict[str, str], label: str, classes: Dict[str, 
             own_names = [m for m in MEMBERS if m in c.__dict__ and m not in seen]
             seen.update(m for m in MEMBERS if m in c.__dict__)
             if own_names:
-                texp.append((f'{c.__module__}.{c.__qualname__}', sorted(own_names)))
+                texp.append((F(Q(c)), sorted(own_names)))
         tgot = []
         for via, attrs in util.class_members(obj):
             names_ = sorted(a.name for a in attrs if a.name in MEMBERS)
@@ -380,8 +442,99 @@ def _judge2(res: core.Res, mods: Dict[str, str], label: str, classes: Dict[str, 
     res.c('evaluations')
 
 
+def _judge_system(res: core.Res, system: Any, label: str, w: Dict[str, Any]) -> None:
+    """every class whose ancestors are all documented classes: pydoctor's linearisation against type() over dummy classes that mirror
+    the resolved base graph; a hierarchy type() refuses must be reported for that class"""
+    from pydoctor import model
+    from vf.mon import msgs
+    mro_msgs = [m[1] for m in msgs.messages(system) if m[0] == 'mro']
+    dummies: Dict[int, Any] = {}
+    failed: Dict[int, str] = {}
+
+    def dummy(c: Any, depth: int = 0) -> Any:
+        if id(c) in dummies or id(c) in failed:
+            return dummies.get(id(c))
+        if depth > 60 or any(b is None for b in c.baseobjects):
+            failed[id(c)] = 'unresolved-base'
+            return None
+        bases = []
+        for b in c.baseobjects:
+            d = dummy(b, depth + 1)
+            if d is None:
+                failed[id(c)] = 'propagated:' + failed.get(id(b), '?')
+                return None
+            bases.append(d)
+        try:
+            dummies[id(c)] = type(f'D{len(dummies)}', tuple(bases) or (object,), {'_pd': c})
+        except TypeError as e:
+            failed[id(c)] = f'TypeError: {e}'
+            return None
+        return dummies[id(c)]
+    classes_ = [o for o in system.allobjects.values() if isinstance(o, model.Class)]
+    for c in classes_:
+        try:
+            d = dummy(c)
+        except RecursionError:
+            continue
+        reported = any(f':{c.linenumber}:' in t and c.description in t for t in mro_msgs)
+        if d is None:
+            err = failed.get(id(c), '')
+            if err.startswith('TypeError') and ('consistent method resolution' in err or 'duplicate base' in err):
+                res.c('project_inconsistent_judged')
+                if not reported:
+                    res.v('C05:inconsistent-not-reported', f'{label}: type() refuses the hierarchy pydoctor resolved for {c.fullName()} ({err}) but nothing is reported', cls=c.fullName(), **w)
+            continue
+        res.c('project_classes_judged')
+        exp = [x._pd.fullName() for x in d.__mro__ if hasattr(x, '_pd')]
+        got = [x.fullName() for x in c.mro(False, True)] if c._mro is not None else None
+        if got is None:
+            continue
+        if reported:
+            res.v('C05:consistent-but-reported', f'{label}: the hierarchy resolved for {c.fullName()} is consistent for type() but pydoctor reports a linearisation error', cls=c.fullName(), **w)
+        elif got != exp:
+            res.v('C05:mro-differs', f'{label}: {c.fullName()}: pydoctor mro {got}, type() over the same resolved bases gives {exp}', cls=c.fullName(), **w)
+
+
 def run_case(case: Dict[str, Any]) -> core.Res:
     res = core.Res()
+    if case['part'] == 'GP':
+        from pathlib import Path
+        from vf.gen import projrun
+        try:
+            system = projrun.build_system([Path(case['path'])])
+        except Exception:  # noqa: BLE001 -- C01's business
+            res.c('corpus_analysis_raised')
+            return res
+        _judge_system(res, system, Path(case['path']).name, {'path': case['path']})
+        res.c('evaluations')
+        res.distinct('GP:' + case['path'])
+        res.sample({'package': case['path']})
+        return res
+    if case['part'] == 'G':
+        from vf.gen import project, projrun
+        from vf.mon import sched
+        specs = [project.generate(core.rng('C05G', case['seed'], case['k'] + j), project.Features.history()) for j in range(case['n'])]
+        with projrun.TmpProjects(specs, seed=('C05G', case['seed'], case['k'])) as tp:
+            for j, spec in enumerate(specs):
+                for o in range(3):
+                    label = f"C05G:{case['seed']}:{case['k'] + j}/order{o}"
+                    try:
+                        system = projrun.build_system(tp.roots[j], order=None if o == 0 else (lambda system_, rr=core.rng('order', label): sched.permute(system_, rr)))
+                    except Exception:  # noqa: BLE001 -- C02's business
+                        res.c('project_analysis_raised')
+                        continue
+                    _judge_system(res, system, label, {'project': label, 'sources': project.sources(spec, seed=(('C05G', case['seed'], case['k']), j))})
+                    res.c('evaluations')
+                    res.distinct(label)
+        res.sample({'projects': f"C05G:{case['seed']}:{case['k']}"})
+        return res
+    if case['part'] == 'RE':
+        for j in range(case['n']):
+            mods, final = _gen_reexport(case['seed'], case['k'] + j)
+            _judge(res, mods, f"RE:{case['seed']}:{case['k'] + j}", final)
+            res.c('reexported_classes', len(final))
+        res.sample({'reexported': {k: v[-400:] for k, v in mods.items()}})
+        return res
     if case['part'] == 'X':
         for idx in case['idx']:
             mods = _gen_exhaustive(case['n'], idx)
